@@ -52,7 +52,7 @@ pub struct Family {
     pub judge: Judge,
 }
 
-#[derive(Default)]
+#[derive(Default, serde::Serialize, serde::Deserialize)]
 pub struct Agg {
     pub runs: u64,
     pub ops: u64,
@@ -130,6 +130,7 @@ impl Agg {
     }
 }
 
+#[derive(serde::Serialize, serde::Deserialize)]
 pub struct Found {
     pub fam: usize,
     pub i: u64,
@@ -204,6 +205,65 @@ pub fn judge_plan(plan: &Plan, judge: Judge, avail: &[Level]) -> (ExecOut, Optio
     }
 }
 
+#[derive(serde::Serialize, serde::Deserialize)]
+pub struct ShardResult {
+    pub agg: Agg,
+    pub found: Option<Found>,
+    pub harness: Option<String>,
+    pub samples: Vec<serde_json::Value>,
+}
+
+/// One shard: runs i = shard, shard+of, ... < count sequentially in this process.
+pub fn run_shard(spec: &CheckSpec, fam_name: &str, tier: &str, seed: u64, shard: u64, of: u64, count: u64, stopfile: &str) -> i32 {
+    let avail = exec::available_levels();
+    let gctx = GenCtx { tier_thorough: tier == "thorough", avail: &avail };
+    let Some(fam) = spec.families.iter().find(|f| f.name == fam_name) else { return 2 };
+    let mut res = ShardResult { agg: Agg::default(), found: None, harness: None, samples: vec![] };
+    let fam2 = fam.clone();
+    // big stack: copy_wide has a 64 KiB frame and single-task plans run on this thread
+    let handle = std::thread::Builder::new()
+        .stack_size(WORKER_STACK)
+        .spawn({
+            let stopfile = stopfile.to_string();
+            let avail = avail.clone();
+            move || {
+                let gctx = GenCtx { tier_thorough: gctx.tier_thorough, avail: &avail };
+                let mut i = shard;
+                let mut k = 0u64;
+                while i < count {
+                    if k % 32 == 0 && std::path::Path::new(&stopfile).exists() {
+                        break;
+                    }
+                    k += 1;
+                    let plan = (fam2.gen)(seed, i, &gctx);
+                    let (out, v, levels) = judge_plan(&plan, fam2.judge, &avail);
+                    if let Some(h) = &out.harness_error {
+                        res.harness = Some(format!("family {} run {}: {}", fam2.name, i, h));
+                        break;
+                    }
+                    res.agg.add(fam2.name, &out, plan.tasks.len());
+                    if i < 2 {
+                        res.samples.push(json!({"run": i, "plan": plan_summary(&plan), "trace_digest": format!("{:016x}", out.trace_digest())}));
+                    }
+                    if let Some(v) = v {
+                        res.found = Some(Found { fam: 0, i, plan, violation: v, recorded: out.sched.choices.clone(), levels });
+                        break;
+                    }
+                    i += of;
+                }
+                res
+            }
+        })
+        .expect("spawn shard thread");
+    match handle.join() {
+        Ok(res) => {
+            println!("{}", serde_json::to_string(&res).unwrap());
+            0
+        }
+        Err(_) => 2,
+    }
+}
+
 pub struct CheckSpec {
     pub prop: &'static str,
     pub level: &'static str,
@@ -266,46 +326,69 @@ pub fn run_check(spec: &CheckSpec, cfg: &RunCfg) -> i32 {
             }
         }
         let n = ((if thorough { fam.thorough } else { fam.quick }) as f64 * cfg.scale).ceil() as u64;
-        let next = AtomicU64::new(0);
         let ft0 = Instant::now();
-        std::thread::scope(|s| {
-            for _ in 0..cfg.jobs {
-                std::thread::Builder::new()
-                    .stack_size(WORKER_STACK)
-                    .spawn_scoped(s, || {
-                        let mut agg = Agg::default();
-                        loop {
-                            if stop.load(Ordering::Relaxed) {
-                                break;
-                            }
-                            let i = next.fetch_add(1, Ordering::Relaxed);
-                            if i >= n {
-                                break;
-                            }
-                            let plan = (fam.gen)(cfg.seed, i, &gctx);
-                            let (out, v, levels) = judge_plan(&plan, fam.judge, &avail);
-                            if let Some(h) = &out.harness_error {
-                                *harness.lock().unwrap() = Some(format!("family {} run {}: {}", fam.name, i, h));
-                                stop.store(true, Ordering::Relaxed);
-                                break;
-                            }
-                            agg.add(fam.name, &out, plan.tasks.len());
-                            if i < 2 {
-                                samples.lock().unwrap().push(json!({"run": i, "plan": plan_summary(&plan), "trace_digest": format!("{:016x}", out.trace_digest())}));
-                            }
-                            if let Some(v) = v {
-                                found.lock().unwrap().push(Found { fam: fi, i, plan, violation: v, recorded: out.sched.choices.clone(), levels });
-                                stop.store(true, Ordering::Relaxed);
-                                break;
-                            }
-                        }
-                        total.lock().unwrap().merge(agg);
-                    })
-                    .expect("spawn worker");
+        // One OS process per shard: inside a process exactly one simulation runs at a time, so a
+        // run stays an exact function of its plan even if the library under test grows global state.
+        let stopfile = std::env::temp_dir().join(format!("b3sim.stop.{}.{}", std::process::id(), fi));
+        let _ = std::fs::remove_file(&stopfile);
+        let mut children = Vec::new();
+        for k in 0..cfg.jobs {
+            let child = std::process::Command::new(std::env::current_exe().unwrap())
+                .args(["shard", "--prop", spec.prop, "--tier", &cfg.tier, "--seed", &cfg.seed.to_string(), "--family", fam.name])
+                .args(["--shard", &k.to_string(), "--of", &cfg.jobs.to_string(), "--count", &n.to_string()])
+                .arg("--stopfile")
+                .arg(&stopfile)
+                .stdout(std::process::Stdio::piped())
+                .spawn()
+                .expect("spawn shard");
+            children.push(child);
+        }
+        let mut done_runs = 0;
+        // read results as shards finish (each prints one JSON line at exit)
+        let mut readers = Vec::new();
+        for mut c in children {
+            let out = c.stdout.take().unwrap();
+            let sf = stopfile.clone();
+            readers.push(std::thread::spawn(move || {
+                use std::io::Read;
+                let mut buf = String::new();
+                let mut out = out;
+                let _ = out.read_to_string(&mut buf);
+                let st = c.wait();
+                let res: Option<ShardResult> = buf.lines().last().and_then(|l| serde_json::from_str(l).ok());
+                if let Some(r) = &res {
+                    if r.found.is_some() || r.harness.is_some() {
+                        let _ = std::fs::write(&sf, b"stop");
+                    }
+                } else {
+                    let _ = std::fs::write(&sf, b"stop");
+                }
+                (res, st.ok().and_then(|s| s.code()))
+            }));
+        }
+        for r in readers {
+            match r.join().expect("reader thread") {
+                (Some(res), _) => {
+                    done_runs += res.agg.runs;
+                    total.lock().unwrap().merge(res.agg);
+                    samples.lock().unwrap().extend(res.samples);
+                    if let Some(h) = res.harness {
+                        *harness.lock().unwrap() = Some(h);
+                    }
+                    if let Some(mut f) = res.found {
+                        f.fam = fi;
+                        found.lock().unwrap().push(f);
+                    }
+                }
+                (None, code) => {
+                    *harness.lock().unwrap() = Some(format!("shard of family {} died without a result (exit {:?})", fam.name, code));
+                }
             }
-        });
-        println!("  family {:<16} runs={:<9} {:.1}s", fam.name, next.load(Ordering::Relaxed).min(n), ft0.elapsed().as_secs_f64());
-        if stop.load(Ordering::Relaxed) {
+        }
+        let _ = std::fs::remove_file(&stopfile);
+        println!("  family {:<16} runs={:<9} {:.1}s", fam.name, done_runs, ft0.elapsed().as_secs_f64());
+        if !found.lock().unwrap().is_empty() || harness.lock().unwrap().is_some() {
+            stop.store(true, Ordering::Relaxed);
             break;
         }
     }
